@@ -127,9 +127,9 @@ def gen(rnd):
     between = [scen.gen_message(rnd, big_ok=False) for _ in range(rnd.choice([0, 0, 1, 2]))]
     mode = rnd.choice(["client", "client", "server", "server", "both", "client_no_reply"])
     code = rnd.choice(CODES + [None])
-    reason = b"" if code is None else scen.rand_text(rnd, rnd.choice([0, 1, 10, 123]))
+    reason = b"" if code is None else scen.rand_text(rnd, rnd.choice([0, 1, 10, 122, 123, 123]))
     scode = rnd.choice(CODES + [None])
-    sreason = b"" if scode is None else scen.rand_text(rnd, rnd.choice([0, 2, 123]))
+    sreason = b"" if scode is None else scen.rand_text(rnd, rnd.choice([0, 2, 122, 123]))
     fb, cb = scen.wire_plan(rnd, msgs_before)
     fm, cm = scen.wire_plan(rnd, between)
     app = {}
@@ -156,7 +156,12 @@ def gen(rnd):
     else:
         steps += [("timeout", 5120)] * 2
     steps.append(("eof", 10))
-    sc.update(dict(cfg=simnet.default_cfg(close_timeout=None), steps=steps, app=app, keys=scen.keys(rnd, 16), key16=scen.KEY16))
+    # automatic pings may fall due while the closing handshake is under way (a slow peer)
+    ping_rate = rnd.choice([30 * 1024, 30 * 1024, 2048, 4096])
+    if ping_rate < 30 * 1024 and rnd.random() < 0.6:
+        k = rnd.randrange(1, len(steps))
+        steps[k:k] = [("timeout", 5120)] * rnd.choice([1, 2])
+    sc.update(dict(cfg=simnet.default_cfg(close_timeout=None, ping_rate=ping_rate), steps=steps, app=app, keys=scen.keys(rnd, 24), key16=scen.KEY16))
     sc["_eof_after"] = True
     sc["_mode"] = mode
     return sc
